@@ -140,8 +140,8 @@ func parseTermStatus(rep string) termStatus {
 func runTerm(h *hook, c termCase) (obs string, oracle string, osig string, violAt int) {
 	h.call("term.new")
 	defer h.call("term.end")
-	count := 0  // the oracle's own arithmetic: starts - finishes among consumed events
-	phase := 1  // main: 1 = wait(false), 2 = wait(true)
+	count := 0 // the oracle's own arithmetic: starts - finishes among consumed events
+	phase := 1 // main: 1 = wait(false), 2 = wait(true)
 	flag := c.Mode == "wait1"
 	consumed := 0
 	check := func(st termStatus, atStart bool) {
